@@ -66,6 +66,22 @@ def handle (fn : String) (a : Json) : Option (Except String Json) :=
       let k0 ← a.getObjValAs? String "var"
       let rest ← a.getObjValAs? (Array String) "rest"
       pure (Json.bool (decide (∀ t ∈ ts, StablePub k0 rest.toList t.pub)))
+  | "ctx.final" => some do
+      -- evaluate_workflow_final_context over the outbound contexts of the end tasks (database order) for a batch size
+      let outsJ ← a.getObjValAs? (Array Json) "outs"
+      let outs ← outsJ.toList.mapM ctxOfJson
+      let size ← a.getObjValAs? Nat "batch"
+      pure (jsonOfCtx (finalContext size outs))
+  | "ctx.output" => some do
+      -- evaluate_workflow_output for an `output:` clause of plain variable references
+      let specJ ← a.getObjValAs? (Array (Array String)) "spec"
+      let spec := specJ.toList.filterMap fun p => match p.toList with | [o, v] => some (o, v) | _ => none
+      let final ← ctxOfJson (← a.getObjVal? "final")
+      let layersJ ← a.getObjValAs? (Array Json) "layers"
+      let layers ← layersJ.toList.mapM dictOfJson
+      match workflowOutput spec final layers with
+      | some d => pure (jsonOfVal (.obj d))
+      | none => pure (Json.str "error")
   | "ctx.stable2" => some do
       -- the decidable hypotheses of the weaker causal theorems (Props/C05Drop): spine-stable republication
       -- (the leaf may be dropped) and DropsLow (a dropping task has seen at most one generation of the leaf)
